@@ -339,7 +339,9 @@ func generate(family string, rng *rand.Rand, thorough bool) []plan {
 						sc = append(sc, intent{kind: "cancel"})
 					}
 					if timed {
-						sc = append(sc, intent{kind: "sleep", d: max(s.Freq, 1)})
+						// Emit cannot be interrupted while it sleeps, and a select with both arms ready may
+						// still pick the send: it is gone after at most (free capacity + 1) further periods
+						sc = append(sc, intent{kind: "sleep", d: (s.N + 2) * max(s.Freq, 1)})
 					}
 					add(plan{stage: s, icaps: icaps, inputs: inputs, sched: &scripted{script: sc}, maxMoves: 60, drain: false, gen: "absent-consumer"})
 					// enumerated short interleavings with the cancel at every position
@@ -445,7 +447,7 @@ func generate(family string, rng *rand.Rand, thorough bool) []plan {
 					icaps[i] = rng.Intn(3)
 					inputs[i] = anyInput(rng, rng.Intn(5))
 					for j := range inputs[i] {
-						inputs[i][j] = 100*(i+1) + j
+						inputs[i][j] = 100*i + j
 					}
 				}
 				s := &Stage{Kind: "join", N: n}
@@ -470,6 +472,15 @@ func generate(family string, rng *rand.Rand, thorough bool) []plan {
 				sc = append(sc, intent{kind: "send", i: 0}, intent{kind: "recv", k: 0}, intent{kind: "recv", k: 0})
 			}
 			add(plan{stage: s, icaps: []int{cp}, inputs: [][]int{in}, sched: &scripted{script: sc}, maxMoves: 80, drain: true, gen: "idle-then-burst"})
+			// steady: input always available, consumer always ready; one virtual tick per round
+			var st []intent
+			for r := 0; r < (len(in)/ops+2)*iv; r++ {
+				for j := 0; j < ops+cp+2; j++ {
+					st = append(st, intent{kind: "send", i: 0}, intent{kind: "recv", k: 0})
+				}
+				st = append(st, intent{kind: "sleep", d: 1})
+			}
+			add(plan{stage: s, icaps: []int{cp}, inputs: [][]int{in}, sched: &scripted{script: st}, maxMoves: 4000, drain: true, gen: "steady"})
 		}
 	default:
 		panic("unknown family " + family)
